@@ -28,21 +28,21 @@ func (s *State) clone() *State {
 }
 
 type Obligation struct {
-	Func    string
-	Name    string // aggregated obligation name, e.g. "[C06.batch]" or "safety"
-	Kind    string // post pre@call inv-init inv-step safety assert frame cover
-	Detail  string // site description
-	Pos     int    // number of body lines that precede it
-	Guard   string
-	Goal    string
-	Cover   bool // satisfiable expected
-	Clause  *Clause
-	Props   []string
-	Result  string // filled by solver: unsat sat unknown
-	Solver  string
-	Ms      int64
-	Model   string
-	Site    token.Position
+	Func   string
+	Name   string // aggregated obligation name, e.g. "[C06.batch]" or "safety"
+	Kind   string // post pre@call inv-init inv-step safety assert frame cover
+	Detail string // site description
+	Pos    int    // number of body lines that precede it
+	Guard  string
+	Goal   string
+	Cover  bool // satisfiable expected
+	Clause *Clause
+	Props  []string
+	Result string // filled by solver: unsat sat unknown
+	Solver string
+	Ms     int64
+	Model  string
+	Site   token.Position
 }
 
 type addrKind int
@@ -83,60 +83,60 @@ type deferred struct {
 }
 
 type VC struct {
-	P        *Prog
-	fn       *ssa.Function
-	key      string
-	contract *Contract
-	pre      *Prelude
-	body     []string
-	obls     []*Obligation
-	nfresh   int
-	vals     map[ssa.Value]string
-	addrs    map[ssa.Value]*Addr
-	tuples   map[ssa.Value][]string
-	reach    map[*ssa.BasicBlock]string // reach at block entry
-	outSt    map[*ssa.BasicBlock]*State
-	outReach map[*ssa.BasicBlock]string
-	edge     map[[2]int]string // (pred index, succ index) -> edge condition
-	cur      string            // current reach term
-	st       *State
-	entry    *State
-	loops    map[*ssa.BasicBlock]*loopInfo
-	loopOrd  map[*ssa.BasicBlock]int
-	defers   []*deferred
-	warnings []string
-	unsupported []string
-	uncontracted map[string]bool
-	assumedUsed  map[string]bool
-	defaultExt   map[string]bool
-	params   map[string]TV
-	results  []TV // named result info (names/types)
-	retCount int
-	prop     string
-	rangeIt  map[ssa.Value]*rangeInfo
-	curInstr ssa.Instruction
-	safetyOn bool
-	safetyProp bool
-	axiomText string
-	quickMs   int
-	parent    *VC
-	depth     int
-	inlined   map[string]bool
-	groundUsed map[string]bool
-	memo       map[string]string
-	defLine    map[string]int
-	defLineN   int
-	pathNote   string
+	P              *Prog
+	fn             *ssa.Function
+	key            string
+	contract       *Contract
+	pre            *Prelude
+	body           []string
+	obls           []*Obligation
+	nfresh         int
+	vals           map[ssa.Value]string
+	addrs          map[ssa.Value]*Addr
+	tuples         map[ssa.Value][]string
+	reach          map[*ssa.BasicBlock]string // reach at block entry
+	outSt          map[*ssa.BasicBlock]*State
+	outReach       map[*ssa.BasicBlock]string
+	edge           map[[2]int]string // (pred index, succ index) -> edge condition
+	cur            string            // current reach term
+	st             *State
+	entry          *State
+	loops          map[*ssa.BasicBlock]*loopInfo
+	loopOrd        map[*ssa.BasicBlock]int
+	defers         []*deferred
+	warnings       []string
+	unsupported    []string
+	uncontracted   map[string]bool
+	assumedUsed    map[string]bool
+	defaultExt     map[string]bool
+	params         map[string]TV
+	results        []TV // named result info (names/types)
+	retCount       int
+	prop           string
+	rangeIt        map[ssa.Value]*rangeInfo
+	curInstr       ssa.Instruction
+	safetyOn       bool
+	safetyProp     bool
+	axiomText      string
+	quickMs        int
+	parent         *VC
+	depth          int
+	inlined        map[string]bool
+	groundUsed     map[string]bool
+	memo           map[string]string
+	defLine        map[string]int
+	defLineN       int
+	pathNote       string
 	globalsAssumed map[string]bool
-	order      []*ssa.BasicBlock
-	done       bool
-	retsP      *[]inlRet
-	splitOK    bool
-	rootOf     *VC
-	pending    []branchOut
-	workDir    string
-	nfeas      int
-	rets      []inlRet
+	order          []*ssa.BasicBlock
+	done           bool
+	retsP          *[]inlRet
+	splitOK        bool
+	rootOf         *VC
+	pending        []branchOut
+	workDir        string
+	nfeas          int
+	rets           []inlRet
 }
 
 type inlRet struct {
@@ -158,11 +158,11 @@ type loopInfo struct {
 	mods   map[string]bool
 	// roots[h] lists the allocations (outside the loop) through which h is written in the loop;
 	// present only if every write to h in the loop is rooted at such an allocation
-	roots map[string][]ssa.Instruction
-	bases map[string][]loopBase
+	roots     map[string][]ssa.Instruction
+	bases     map[string][]loopBase
 	loadBases map[string][]loopBase
-	wild  map[string]bool
-	ord   int
+	wild      map[string]bool
+	ord       int
 }
 
 // isLoadFromOutside: v = *p with p fixed while the loop runs
@@ -902,7 +902,6 @@ func (vc *VC) Generate() (err error) {
 	return nil
 }
 
-
 func (vc *VC) block(b *ssa.BasicBlock) {
 	// entry reach/state
 	if b.Index == 0 {
@@ -1501,7 +1500,12 @@ func (vc *VC) instr(ins ssa.Instruction) {
 	case *ssa.Go:
 		vc.unsup("go statement")
 	case *ssa.Send, *ssa.Select, *ssa.MakeChan:
-		vc.unsup("channel operation %T", ins)
+		if _, isSel := ins.(*ssa.Select); isSel {
+			// sequential view of select: any ready case may be taken, received values are arbitrary
+			vc.r().defaultExt["select statement (any case may be chosen; received values arbitrary)"] = true
+		} else {
+			vc.unsup("channel operation %T", ins)
+		}
 		if v, ok := ins.(ssa.Value); ok {
 			if tup, ok := v.Type().(*types.Tuple); ok {
 				var ts []string
@@ -2036,7 +2040,7 @@ func (vc *VC) ret(ins *ssa.Return) {
 			}
 			name := "[" + strings.Join(e.Labels, ",") + "]"
 			if len(e.Labels) == 0 {
-				name = fmt.Sprintf("ensures@%d", e.Line)
+				name = unlabelledName(e)
 			}
 			g := vc.evalGoal(env, e.E, e)
 			allGoals.WriteString(g)
